@@ -149,6 +149,7 @@ class PySnmpCodeGen(IntermediateCodeGen):
 
         env.filters['capfirst'] = jfilters.capfirst
         env.filters['wordwrap'] = jfilters.wordwrap
+        env.filters['pystr'] = jfilters.pystr
 
         try:
             tmpl = env.get_template(dstTemplate or self.TEMPLATE_NAME)
